@@ -549,6 +549,9 @@ def trip_vectors(P, cname, fields):
     return var, out
 
 
+CANONICAL_BO = (0, 2, 4, 8, 10, 12, 16, 18, 20)     # PowerPC BO encodings with every hint (y) and ignored (z) bit clear
+
+
 def branch_trip_rule(ctx, R, M, mod):
     import re
     from ..ppcbranch import BranchTrip, Raised
@@ -589,7 +592,16 @@ def branch_trip_rule(ctx, R, M, mod):
                         got = dict((k, getattr(o, k)) for k in f)
                         for k in f:
                             if got[k] != f[k]:
-                                st['bad'].setdefault('field:%s' % k, []).append((f, name, args, got))
+                                # two classes of words share one cause each (the text has no place for them): BO values with hint / ignored bits set (the
+                                # architecture's y and z bits: every BO outside 0,2,4,8,10,12,16,18,20), and BI under a BO that ignores the condition (0x10 set).
+                                # Every other word is its own finding: field, BO value, CR0 (not rendered as an operand) or another CR field
+                                if k == 'bo' and bo not in CANONICAL_BO:
+                                    sub = 'field:bo:hint-bits'
+                                elif k == 'bi' and bo & 0x10:
+                                    sub = 'field:bi:condition-ignored'
+                                else:
+                                    sub = 'field:%s:bo=%#x:%s' % (k, bo, 'cr0' if bi < 4 else 'crN')
+                                st['bad'].setdefault(sub, []).append((f, name, args, got))
     R.note('%d field combinations rendered and assembled back (evaluated from the source of getname/args2str/check_mnemo/parse_opts/parse_args)' % n_eval)
     for (cname, kd), st in sorted(stats.items()):
         inst = '%s %s' % (cname, kd)
@@ -600,9 +612,11 @@ def branch_trip_rule(ctx, R, M, mod):
             f, name, args, got = lst[0]
             word = 'BO=%#x BI=%d AA=%d LK=%d' % (f['bo'], f['bi'], f['aa'], f['lk'])
             if what.startswith('field:'):
-                fld = what[6:]
-                msg = '%s: %d of %d combinations do not get their %s back, e.g. %s renders as %r and assembles to %s=%#x' % (
-                    inst, len(lst), st['n'], fld.upper(), word, (name + ' ' + ', '.join(args)).strip(), fld.upper(), got[fld])
+                fld = what[6:].split(':')[0]
+                cls_ = {'hint-bits': 'BO values with hint / ignored bits set', 'condition-ignored': 'BO values that ignore the condition'}.get(what.split(':')[-1]) \
+                    or 'BO=%#x, BI in %s' % (f['bo'], 'CR0' if f['bi'] < 4 else 'CR1..7')
+                msg = '%s, %s: %d of %d combinations do not get their %s back, e.g. %s renders as %r and assembles to %s=%#x' % (
+                    inst, cls_, len(lst), st['n'], fld.upper(), word, (name + ' ' + ', '.join(args)).strip(), fld.upper(), got[fld])
             elif what.startswith('raises:'):
                 msg = '%s: the assembler raises %s on %d of %d rendered texts, e.g. %r (%s)' % (inst, what[7:], len(lst), st['n'], (name + ' ' + ', '.join(args)).strip(), word)
             else:
